@@ -143,6 +143,13 @@ def make_views(is_async):
         def _hidden(self):
             return 'V1._hidden'
 
+        # public methods named like words of the library's own vocabulary are public methods
+        def context(self):
+            return type(self).__name__ + '.context'
+
+        def method(self):
+            return type(self).__name__ + '.method'
+
     if is_async:
         async def apm(self):
             return type(self).__name__ + '.pm'
@@ -172,8 +179,9 @@ def make_views(is_async):
 
 
 VIEW_PUBLIC = [{'pm': 'V0.pm', 'alpha': 'V0.alpha', 'st': 'V0.st', 'cm': 'V0.cm', 'inherited': 'view:inherited', 'mixed': 'mix0:mixed'},
-               {'pm': 'V1.pm', 'helper': 'mix1:helper', 'shelper': 'mix1:shelper'},
-               {'pm': 'V2.pm', 'helper': 'V2.helper', 'shelper': 'mix1:shelper', 'helper_data': 'V2.helper_data'},
+               {'pm': 'V1.pm', 'helper': 'mix1:helper', 'shelper': 'mix1:shelper', 'context': 'V1.context', 'method': 'V1.method'},
+               {'pm': 'V2.pm', 'helper': 'V2.helper', 'shelper': 'mix1:shelper', 'helper_data': 'V2.helper_data', 'context': 'V2.context',
+                'method': 'V2.method'},
                {'km': 'registered-but-fails:-32603'}]
 VIEW_PRIVATE = ['_priv', '__dd__', 'data', 'names', '_hidden', '_mixpriv', 'helper_data', '__init__', '__methods__', '__class__', '__dict__', '__doc__']
 
@@ -309,6 +317,7 @@ def run_history(ctx, ops, is_async):
     near = set()
     for n in valid:
         near.update({n[:-1], n + 'x', 'x' + n, n[1:], n + '.', '.' + n, n.upper(), n.replace('.', '', 1), n.replace('.', '..', 1)})
+        near.update({n + ' ', ' ' + n, n + '\n', '\t' + n, n + '\u00a0', n.replace('.', ' . ', 1), n.replace('.', '. ', 1)})     # white space is part of a name
         segs = n.split('.')
         for i in range(len(segs)):
             near.add('.'.join(segs[:i] + segs[i + 1:]))
